@@ -219,3 +219,110 @@ def c12_13(ctx: Ctx):
               key="_remove_empty_blocks::rehome-in-edges")
     disc = [(g, c) for g, c in lr.all_calls() if src(c) == "self._state.cfg.discard(edge)"]
     ctx.check(len(disc) == 2, fr, fr.node, "old in- and out-edges of a folded block are discarded", "discards changed", key="_remove_empty_blocks::discards")
+
+
+def _equiv(lin, got_expr: ast.AST, want_text: str, at=None) -> bool:
+    want = ast.parse(want_text, mode="eval").body
+    a = lin.cond_at(at, got_expr) if at is not None else lin.cond(got_expr, {})
+    b = lin.cond_at(at, want) if at is not None else lin.cond(want, {})
+    return implies(a, b) and implies(b, a)
+
+
+@rule("C03.16", ["C03", "C06"], "edge filters of join and of return-edge bookkeeping are exactly the stated predicates (test-suite-surviving mutants)", 7)
+def c03_16(ctx: Ctx):
+    repo = ctx.repo
+    fj = repo.func("_modify.join.are_joinable")
+    lj = linear(fj.node)
+    specs = {
+        "any_out_edges": ("block1.outgoing_edges", "not _is_fallthrough_edge(edge) or edge.target != block2", "an out-edge of block1 other than the fallthrough into block2"),
+        "falls_through": ("block1.outgoing_edges", "_is_fallthrough_edge(edge) and edge.target == block2", "the fallthrough from block1 into block2"),
+        "any_in_edges": ("block2.incoming_edges", "not _is_fallthrough_edge(edge) or edge.source != block1", "an in-edge of block2 other than the fallthrough from block1"),
+    }
+    for var, (over, filt, what) in specs.items():
+        v = single_assign_value(fj.node, var)
+        gen = v.args[0] if isinstance(v, ast.Call) and src(v.func) == "any" and v.args and isinstance(v.args[0], ast.GeneratorExp) else None
+        ok = gen is not None and len(gen.generators) == 1 and src(gen.generators[0].iter) == over and len(gen.generators[0].ifs) == 1 and _equiv(lj, gen.generators[0].ifs[0], filt)
+        ctx.check(ok, fj, v or fj.node, f"`{var}` = there is {what}",
+                  f"`{var} = {src(v)[:110] if v else '?'}` does not select exactly the edges that are {what}: blocks with a real terminator are merged (a control transfer buried "
+                  "mid-block) or joinable blocks are kept apart",
+                  key=f"are_joinable::{var}")
+    jb = repo.func("_modify.join.join_blocks")
+    ljb = linear(jb.node)
+    disc = [g for g, c in ljb.all_calls() if src(c) == "ir.cfg.discard(in_edge)"]
+    first = [g for g in disc if any("_is_fallthrough_edge(in_edge)" in a for a in _atoms(g.guard))]
+    ok = len(first) == 1
+    if ok:
+        ifs = [x for x in ljb.stmts if isinstance(x.node, ast.If) and x.index < first[0].index and "_is_fallthrough_edge(in_edge)" in src(x.node.test)]
+        ok = bool(ifs) and _equiv(ljb, ifs[-1].node.test, "_is_fallthrough_edge(in_edge) and in_edge.source is block1")
+    ctx.check(ok, jb, first[0].node if first else jb.node, "join_blocks drops exactly the fallthrough that connected block1 to block2",
+              "the connecting-edge test changed: other incoming edges of block2 are dropped with it (or the connecting fallthrough survives as a self-loop of the joined block)",
+              key="join_blocks::connecting-fallthrough")
+    fe = repo.func("_modify.edges.add_return_edges_to_callee")
+    le = linear(fe.node)
+    skips = [g for g in le.stmts if isinstance(g.node, ast.Continue)]
+    ifs = [x for x in le.stmts if isinstance(x.node, ast.If) and skips and any(s is skips[0].node for s in ast.walk(x.node))]
+    ok = len(skips) == 1 and bool(ifs) and _equiv(le, ifs[-1].node.test,
+                                                 "not cache.return_cache.any_return_edges(block) and not any((_is_return_edge(edge) for edge in cfg.out_edges(block)))")
+    ctx.check(ok, fe, skips[0].node if skips else fe.node, "a block is skipped exactly when it returns neither in the IR nor in the patch CFG so far",
+              f"skip test is `{src(ifs[-1].node.test)[:120] if ifs else '?'}`", key="add_return_edges_to_callee::skip-test")
+    fr = repo.func("_modify.edges.remove_return_edges_from_callee")
+    lr = linear(fr.node)
+    sets = [g for g in lr.stmts if isinstance(g.node, ast.Assign) and src(g.node.targets[0]) == "remaining_edges"]
+    true_sets = [g for g in sets if isinstance(g.node.value, ast.Constant) and g.node.value.value is True]
+    ok = len(true_sets) == 1 and lr.under(true_sets[0], "edge.target not in fallthrough_targets") and any(isinstance(g.node.value, ast.Constant) and g.node.value.value is False and len(g.loops) < len(true_sets[0].loops) for g in sets)
+    ctx.check(ok, fr, true_sets[0].node if true_sets else fr.node, "`remaining_edges` becomes True exactly for a return edge that is kept",
+              "the flag that records 'the callee still returns somewhere' is not set for kept edges: every removed call then adds a placeholder Return edge to a fresh proxy although "
+              "other call sites remain",
+              key="remove_return_edges_from_callee::remaining-flag")
+    prox = [g for g, c in lr.all_calls() if src(c.func) == "gtirb.ProxyBlock"]
+    ctx.check(len(prox) == 1 and lr.under(prox[0], "not remaining_edges"), fr, prox[0].node if prox else fr.node, "the placeholder proxy return is added only when no return edge is left", "proxy condition changed",
+              key="remove_return_edges_from_callee::proxy-only-when-none-left")
+
+
+@rule("C13.7", ["C13", "C11"], "get_or_insert_extern_symbol returns the existing symbol when the (decorated) name is already there", 2)
+def c13_7(ctx: Ctx):
+    fi = ctx.repo.func("rewriting.RewritingContext.get_or_insert_extern_symbol")
+    lin = linear(fi.node)
+    rets = [g for g in lin.stmts if isinstance(g.node, ast.Return) and g.node.value is not None and src(g.node.value) == "sym"]
+    create = [g for g, c in lin.all_calls() if src(c.func) == "gtirb.Symbol"]
+    if not create:
+        raise AnalysisError("get_or_insert_extern_symbol: symbol creation not found")
+    early = [g for g in rets if g.index < create[0].index]
+    ctx.check(len(early) == 1 and lin.under(early[0], "sym") and len(_atoms(early[0].guard)) == 1, fi, early[0].node if early else fi.node, "`if sym: return sym` precedes the creation of a new symbol",
+              "the early return for an existing symbol is missing or narrowed: a second symbol with the same name is created next to the module's own (which one a patch binds to then depends on set order)",
+              key="get_or_insert_extern_symbol::return-existing")
+    dec = [g for g in lin.stmts if isinstance(g.node, ast.Assign) and src(g.node.targets[0]) == "name" and isinstance(g.node.value, ast.Call) and src(g.node.value.func) == "decorate_extern_symbol"]
+    look = [g for g in lin.stmts if isinstance(g.node, ast.Assign) and src(g.node.targets[0]) == "sym" and "self._module.symbols" in src(g.node.value)]
+    ctx.check(len(dec) == 1 and look and dec[0].index < look[0].index and dec[0].top, fi, dec[0].node if dec else fi.node, "the name is decorated for the platform before it is looked up and created",
+              "the platform decoration (leading underscore on IA32 PE, ...) is not applied before the lookup: the existing decorated symbol is not found and an undecorated duplicate is created",
+              key="get_or_insert_extern_symbol::decorate-first")
+
+
+@rule("C18.8", ["C18", "C06"], "attribute rules match on access type *and* attribute set; delete_at refuses a partial proxy deletion; SEH/CFI re-homing looks at the next block", 3)
+def c18_8(ctx: Ctx):
+    repo = ctx.repo
+    fi = repo.func("_modify.retarget._retarget_sym_expr")
+    mr = single_assign_value(fi.node, "matching_rules")
+    gen = mr if isinstance(mr, (ast.ListComp, ast.GeneratorExp)) else (mr.args[0] if isinstance(mr, ast.Call) and mr.args and isinstance(mr.args[0], (ast.ListComp, ast.GeneratorExp)) else None)
+    lin = linear(fi.node)
+    ok = gen is not None and len(gen.generators) == 1 and len(gen.generators[0].ifs) >= 1
+    if ok:
+        test = gen.generators[0].ifs[0] if len(gen.generators[0].ifs) == 1 else ast.BoolOp(op=ast.And(), values=list(gen.generators[0].ifs))
+        ok = _equiv(lin, test, "access_type in rule.access_types and expr.attributes == rule.get_relevant_attrs(old_defined)")
+    ctx.check(ok, fi, mr or fi.node, "a rule applies iff the access type is one of its own and the attributes equal its set for A's kind",
+              f"rule filter is `{src(mr)[:120] if mr else '?'}`: rules of another access type (or with other attributes) now match, so several rules match (ValueError) or the wrong conversion is applied",
+              key="_retarget_sym_expr::rule-filter")
+    da = repo.func("rewriting.RewritingContext.delete_at")
+    ld = linear(da.node)
+    r = [g for g in ld.stmts if isinstance(g.node, ast.Raise) and "retarget_to_proxy can only be specified" in src(g.node)]
+    ok = len(r) == 1
+    if ok:
+        ifs = [x for x in ld.stmts if isinstance(x.node, ast.If) and any(s is r[0].node for s in ast.walk(x.node))]
+        ok = bool(ifs) and _equiv(ld, ifs[-1].node.test, "retarget_to_proxy and (offset != 0 or length != block.size)")
+    ctx.check(ok, da, r[0].node if r else da.node, "retarget_to_proxy with anything but the whole block is refused with ValueError", "the validation of partial proxy deletions changed: such a request is accepted (or whole-block proxy deletions are refused)",
+              key="delete_at::partial-proxy-refused")
+    seh = repo.func("_modify.remove._update_pe_safe_seh")
+    adds = [(g, c) for g, c in linear(seh.node).all_calls() if src(c) == "table.add(next_block)"]
+    ok = len(adds) == 1 and linear(seh.node).under(adds[0][0], "isinstance(next_block, gtirb.CodeBlock)")
+    ctx.check(ok, seh, adds[0][1] if adds else seh.node, "the next block inherits the safe-SEH flag only when it is a code block", "the inheriting block is not checked to be code (a data block or None is added to peSafeExceptionHandlers)",
+              key="_update_pe_safe_seh::next-is-code")
